@@ -167,8 +167,14 @@ func equalities(s *Selector) (map[string]string, bool) {
 		m[k] = v
 	}
 	for _, e := range s.Exprs {
-		if e.Op != "In" || len(e.Values) != 1 {
+		// In with one value - also when that value is listed more than once - is a label equality
+		if e.Op != "In" || len(e.Values) < 1 {
 			return nil, false
+		}
+		for _, v := range e.Values[1:] {
+			if v != e.Values[0] {
+				return nil, false
+			}
 		}
 		if old, ok := m[e.Key]; ok && old != e.Values[0] {
 			return nil, false
